@@ -36,6 +36,28 @@ def ok_only_when_drained(P):
     return True, "", [peek[0].loc]
 
 
+def _caps(o, acc=None, d=0):
+    """All ("capture", name, index) leaves of an origin."""
+    if acc is None:
+        acc = []
+    if d > 20:
+        return acc
+    if o[0] == "capture":
+        acc.append(o)
+    elif o[0] == "call":
+        for a in o[1].args:
+            _caps(o[1].body.origin(a), acc, d + 1)
+    elif o[0] in ("field", "downcast", "index", "cast"):
+        _caps(o[1], acc, d + 1)
+    elif o[0] == "agg":
+        for x in o[2]:
+            _caps(x, acc, d + 1)
+    elif o[0] == "phi":
+        for x in o[1]:
+            _caps(x, acc, d + 1)
+    return acc
+
+
 def run(chk):
     P = mir.Program("K1")
     chk.use_program(P)
@@ -108,7 +130,9 @@ def run(chk):
         for bb in errs:
             eo = b.origin(0, _chooser=lambda defs, bb=bb: [d for d in defs if d[0] == bb][0] if [d for d in defs if d[0] == bb] else None)
             rr = common.roots(eo)
-            if ("capture", "channel") not in rr and ("param", 4) not in rr and not any(k == "local" for k, v in rr):
+            carries = any(k == "local" for k, v in rr) or any(
+                k == "capture" and common.root_param(P, b, ("capture", v, next((x[2] for x in _caps(eo) if x[1] == v), None))) == 2 for k, v in rr)
+            if not carries:
                 return False, "the error returned does not carry the channel (its remaining requests) back for retry", [], b.span
         return True, "", [peek.loc, s.loc, r.loc]
     chk.ob("C12.R1:send-loop", "each acknowledged request is removed exactly once, from the end it was peeked at; a failed one stays", r1)
@@ -122,8 +146,15 @@ def run(chk):
         clo = b.origin(mr[0].args[1])
         if clo[0] != "agg" or clo[1].get("ak") != "closure":
             return False, "map_retryable argument is not a closure", [], mr[0].loc
-        caps = dict(zip(clo[1]["fields"], clo[2]))
-        if "channel" not in caps:
+        # one of the captured values is the channel the function was given (its `channel` parameter, #2 of send; the async body sees it
+        # as a capture or a local initialised from it) - by provenance, not by what the variable is called
+        def is_channel(o):
+            if common.derives_from_root_param(P, b, o, 2, through=()):
+                return True
+            if o[0] == "local":
+                return "Channel" in b.local_ty(o[1])
+            return False
+        if not any(is_channel(x) for x in clo[2]):
             return False, "the retry closure does not capture the channel", [], mr[0].loc
         cb = P.body(clo[1]["def"])
         # r.map(|_| channel): Some stays Some, None stays None
